@@ -12,12 +12,19 @@ Inductive op :=
 | ORemove (id : opid) (k : str)                       (* MAP_REMOVE {Key} *)
 | OIns (id : opid) (target : ts) (vs : list val)      (* LIST_INSERT {T, V} *)
 | ODel (id : opid) (targets : list ts)                (* LIST_DELETE {T} *)
-| OUpd (id : opid) (targets : list ts) (vs : list val)(* LIST_UPDATE {T, V} *).
+| OUpd (id : opid) (targets : list ts) (vs : list val)(* LIST_UPDATE {T, V} *)
+(* document operations: P = the container (object / array) addressed by its creation timestamp *)
+| ODocPut (id : opid) (p : ts) (k : str) (v : val)                  (* DOC_OBJ_PUT {P, K, V} *)
+| ODocRmv (id : opid) (p : ts) (k : str)                            (* DOC_OBJ_RMV {P, K} *)
+| ODocIns (id : opid) (p : ts) (target : ts) (vs : list val)        (* DOC_ARR_INS {P, T, V} *)
+| ODocDel (id : opid) (p : ts) (targets : list ts)                  (* DOC_ARR_DEL {P, T} *)
+| ODocUpd (id : opid) (p : ts) (targets : list ts) (vs : list val). (* DOC_ARR_UPD {P, T, V} *)
 
 Definition op_id (o : op) : opid :=
   match o with
   | OSnap i | OTx i _ _ | OInc i _ | OPut i _ _ | ORemove i _
-  | OIns i _ _ | ODel i _ | OUpd i _ _ => i
+  | OIns i _ _ | ODel i _ | OUpd i _ _
+  | ODocPut i _ _ _ | ODocRmv i _ _ | ODocIns i _ _ _ | ODocDel i _ _ | ODocUpd i _ _ _ => i
   end.
 
 Definition op_ts (o : op) : ts := opid_ts (op_id o).
@@ -32,6 +39,11 @@ Definition op_set_id (o : op) (i : opid) : op :=
   | OIns _ t v => OIns i t v
   | ODel _ t => ODel i t
   | OUpd _ t v => OUpd i t v
+  | ODocPut _ p k v => ODocPut i p k v
+  | ODocRmv _ p k => ODocRmv i p k
+  | ODocIns _ p t v => ODocIns i p t v
+  | ODocDel _ p t => ODocDel i p t
+  | ODocUpd _ p t v => ODocUpd i p t v
   end.
 
 Definition op_eqb (a b : op) : bool :=
@@ -44,6 +56,11 @@ Definition op_eqb (a b : op) : bool :=
   | OIns i t v, OIns j t' v' => opid_eqb i j && ts_eqb t t' && list_eqb val_eqb v v'
   | ODel i t, ODel j t' => opid_eqb i j && list_eqb ts_eqb t t'
   | OUpd i t v, OUpd j t' v' => opid_eqb i j && list_eqb ts_eqb t t' && list_eqb val_eqb v v'
+  | ODocPut i p k v, ODocPut j p' k' v' => opid_eqb i j && ts_eqb p p' && str_eqb k k' && val_eqb v v'
+  | ODocRmv i p k, ODocRmv j p' k' => opid_eqb i j && ts_eqb p p' && str_eqb k k'
+  | ODocIns i p t v, ODocIns j p' t' v' => opid_eqb i j && ts_eqb p p' && ts_eqb t t' && list_eqb val_eqb v v'
+  | ODocDel i p t, ODocDel j p' t' => opid_eqb i j && ts_eqb p p' && list_eqb ts_eqb t t'
+  | ODocUpd i p t v, ODocUpd j p' t' v' => opid_eqb i j && ts_eqb p p' && list_eqb ts_eqb t t' && list_eqb val_eqb v v'
   | _, _ => false
   end.
 
